@@ -149,7 +149,7 @@ type c20Run struct {
 	aborted  bool
 }
 
-var c20StuckTimeout = 90 * time.Second
+var c20StuckTimeout = 240 * time.Second
 
 func (r *c20Run) label(l string) { r.labels[l]++ }
 
